@@ -17,7 +17,7 @@ from simkit.universe import Universe, kind_of
 PROPERTY = "C16"
 ENGINE = "fsbox"
 LEVEL = "exploration"
-BUDGET = {"quick": (6000, 60), "thorough": (400000, 540)}
+BUDGET = {"quick": (15000, 60), "thorough": (400000, 540)}
 RULE = ("a seeded valid document (all dtypes, ids, cardinalities, nesting) is saved twice (old and new "
         "version) as XML / JSON / YAML, the stored bytes are damaged by a plan of 1-3 storage faults "
         "(truncate, zero, garbage, bitflip biased into text/scalars, drop/dup/swap of line ranges "
